@@ -1544,7 +1544,8 @@ class ComplexModulus(Operator):
                         out.assign(x)
                         tmp = u / op(x)
                         out.real *= tmp
-                        out.imag *= tmp
+                        if not out.space.is_real:
+                            out.imag *= tmp
                         return out
 
                     @property
@@ -1739,7 +1740,8 @@ class ComplexModulusSquared(Operator):
                         """Implement ``self(u, out)``."""
                         out.assign(x)
                         out.real *= u
-                        out.imag *= u
+                        if not out.space.is_real:
+                            out.imag *= u
                         out *= 2
                         return out
 
